@@ -143,6 +143,42 @@ def conformance(rep, wd, trace_path, label, chunk=2500):
         rep.notes.append("DIVERGENCE module=Core (Verify/SyncResult) trace=%d step=%d op=%s" % (d["t"], d["i"], d["op"]))
 
 
+def replica_conformance(rep, wd, trace_path, label, chunk=3000):
+    """Binding of Replica.tla: its own CompactOut / SnapRetentionOut / L0RetentionResult, instantiated on the replica listing
+    observed before each real compaction / retention call, must predict what the real code did (Trace_Replica.tla)."""
+    per, order = {}, []
+    for line in open(trace_path):
+        t = json.loads(line)["t"]
+        if t not in per:
+            per[t] = []
+            order.append(t)
+        per[t].append(line)
+    batches, cur = [], []
+    for t in order:
+        cur += per[t]
+        if len(cur) >= chunk:
+            batches.append(cur)
+            cur = []
+    if cur:
+        batches.append(cur)
+    kinds, div, n = {}, [], 0
+    for part in batches:
+        with open(os.path.join(wd, "core_trace.ndjson"), "w") as fh:
+            fh.writelines(part)
+        r = vlib.run_tlc("Trace_Replica", "Trace_Replica.cfg", wd, workers=1, timeout=1800)
+        vlib.tlc_expect_ok(r, "Trace_Replica")
+        rep.add_tlc("Trace_Replica(%s)" % label, r, "Replica.tla's compaction/retention operators vs what the real code did")
+        for m in vlib.re.finditer(r'<<"BRANCH", "([a-z0-9-]+)", (\d+), (\d+), (\d+)>>', r.out):
+            kinds[m.group(1)] = kinds.get(m.group(1), 0) + 1
+            n += 1
+        for m in vlib.re.finditer(r'<<"DIVERGE", (\d+), (\d+), (\d+)>>', r.out):
+            e = json.loads(part[int(m.group(1)) - 1])
+            div.append({"t": e["t"], "i": e["i"], "op": e["op"], "n": e["n"]})
+    rep.cov["replica_conformance"] = {"operations_predicted": n, "kinds": kinds, "divergences": len(div), "first": div[:3]}
+    for d in div[:3]:
+        rep.notes.append("DIVERGENCE module=Replica trace=%d step=%d op=%s %s" % (d["t"], d["i"], d["op"], d["n"]))
+
+
 def environment_conformance(rep, wd, seed, files=4, traces=40):
     """SqliteWal.tla (the environment half of the specification) must accept traces recorded from REAL SQLite with no
     litestream attached (cmd/envtrace).  Includes a negative control: one corrupted page id must be rejected."""
